@@ -87,3 +87,43 @@ Print Assumptions C02_Publish_V5.
 Print Assumptions C02_Publish_V311.
 Print Assumptions C02_Connect_V5.
 Print Assumptions C02_Connect_V311.
+
+From GM Require Import Base.Prelude Base.Outcome Codec.Packets Codec.Settings Codec.Steps Codec.ImplEncode Codec.SpecDecodeC2S Codec.ValidC2S Engine.Model Engine.Instance EngineProofs.WFDefs EngineProofs.IdsWitness EngineProofs.HandshakeRunTrace EngineProofs.AliasRunLog EngineProofs.AliasRunInstance EngineProofs.WireRunLog EngineProofs.WireRun EngineProofs.WireRunConn EngineProofs.WireRunCodec EngineProofs.WireRunInstance EngineProofs.WireRunWitness.
+Check C02_fragmentation_total : forall (steps : list Steps.step) (fill cap : N) (out : bytes) (rest : list Steps.step), encode_call steps fill cap = Ok (out, rest) -> flat steps = out ++ flat rest.
+Print Assumptions C02_fragmentation_total.
+Check C02_all_kinds : forall (v : version) (r : resolution) (p : packet), valid v r p = true -> exists bs : bytes, impl_encode_all v p r = Ok bs /\ spec_decode v bs = Some (canon v r p, []).
+Print Assumptions C02_all_kinds.
+Check C02_spec_decode_on_stream : forall (v : version) (bs : bytes) (p : packet) (more : list N), spec_decode v bs = Some (p, []) -> spec_decode v (bs ++ more) = Some (p, more).
+Print Assumptions C02_spec_decode_on_stream.
+Check C02_stream_decodes : forall (v : version) (l : list (packet * resolution)), Forall (pr_valid v) l -> spec_decode_all (length l) v (concat (map (fun x : packet * resolution => full_encoding v (fst x) (snd x)) l)) = Some (map (pr_canon v) l).
+Print Assumptions C02_stream_decodes.
+Check C02_wire_loop_is_model : forall (enc : Type) (enc_reset : version -> packet -> resolution -> outcome enc) (enc_call : enc -> N -> N -> outcome (bytes * enc)) (enc_done : enc -> bool) (dec ores : Type) (ores_reset : ores -> N -> ores) (ores_resolve : ores -> option N -> bytes -> outcome (ores * resolution)) (ires : Type) (v_out : option settings -> connect_opts -> resolution -> packet -> outcome unit) (cfg : config) (f : nat) (s : state enc dec ores ires) (m : bool) (now cap fill : N) (acc : bytes) (dn : dones), fst (service_loop_w enc enc_reset enc_call enc_done dec ores ores_reset ores_resolve ires v_out cfg f s m now cap fill acc dn) = service_loop enc enc_reset enc_call enc_done dec ores ores_reset ores_resolve ires v_out cfg f s m now cap fill acc dn.
+Print Assumptions C02_wire_loop_is_model.
+Check C02_wire_loop_alias_events : forall (enc : Type) (enc_reset : version -> packet -> resolution -> outcome enc) (enc_call : enc -> N -> N -> outcome (bytes * enc)) (enc_done : enc -> bool) (dec ores : Type) (ores_reset : ores -> N -> ores) (ores_resolve : ores -> option N -> bytes -> outcome (ores * resolution)) (ires : Type) (v_out : option settings -> connect_opts -> resolution -> packet -> outcome unit) (cfg : config) (f : nat) (s : state enc dec ores ires) (m : bool) (now cap fill : N) (acc : bytes) (dn : dones), olog_of (snd (service_loop_w enc enc_reset enc_call enc_done dec ores ores_reset ores_resolve ires v_out cfg f s m now cap fill acc dn)) = snd (service_loop_a enc enc_reset enc_call enc_done dec ores ores_reset ores_resolve ires v_out cfg f s m now cap fill acc dn).
+Print Assumptions C02_wire_loop_alias_events.
+Check C02_wire_loop_bytes : forall (enc : Type) (enc_reset : version -> packet -> resolution -> outcome enc) (enc_call : enc -> N -> N -> outcome (bytes * enc)) (enc_done : enc -> bool) (dec ores : Type) (ores_reset : ores -> N -> ores) (ores_resolve : ores -> option N -> bytes -> outcome (ores * resolution)) (ires : Type) (v_out : option settings -> connect_opts -> resolution -> packet -> outcome unit) (cfg : config) (f : nat) (s : state enc dec ores ires) (m : bool) (now cap fill : N) (acc : bytes) (dn : dones), sr_bytes (fst (service_loop_w enc enc_reset enc_call enc_done dec ores ores_reset ores_resolve ires v_out cfg f s m now cap fill acc dn)) = acc ++ wbytes (snd (service_loop_w enc enc_reset enc_call enc_done dec ores ores_reset ores_resolve ires v_out cfg f s m now cap fill acc dn)).
+Print Assumptions C02_wire_loop_bytes.
+Check C02_wire_log_alias_events : forall (enc : Type) (enc_reset : version -> packet -> resolution -> outcome enc) (enc_call : enc -> N -> N -> outcome (bytes * enc)) (enc_done : enc -> bool) (dec : Type) (dec_init : dec) (dec_feed : version -> N -> dec -> bytes -> dec * list packet * outcome unit) (ores : Type) (ores_reset : ores -> N -> ores) (ores_resolve : ores -> option N -> bytes -> outcome (ores * resolution)) (ires : Type) (ires_reset : ires -> ires) (ires_resolve : ires -> option N -> bytes -> outcome (ires * bytes)) (v_out : option settings -> connect_opts -> resolution -> packet -> outcome unit) (v_in : option settings -> packet -> outcome unit) (cfg : config) (h : list event) (s : state enc dec ores ires), olog_of (run_wlog enc enc_reset enc_call enc_done dec dec_init dec_feed ores ores_reset ores_resolve ires ires_reset ires_resolve v_out v_in cfg s h) = run_olog enc enc_reset enc_call enc_done dec dec_init dec_feed ores ores_reset ores_resolve ires ires_reset ires_resolve v_out v_in cfg s h.
+Print Assumptions C02_wire_log_alias_events.
+Check C02_wire_log_bytes : forall (enc : Type) (enc_reset : version -> packet -> resolution -> outcome enc) (enc_call : enc -> N -> N -> outcome (bytes * enc)) (enc_done : enc -> bool) (dec : Type) (dec_init : dec) (dec_feed : version -> N -> dec -> bytes -> dec * list packet * outcome unit) (ores : Type) (ores_reset : ores -> N -> ores) (ores_resolve : ores -> option N -> bytes -> outcome (ores * resolution)) (ires : Type) (ires_reset : ires -> ires) (ires_resolve : ires -> option N -> bytes -> outcome (ires * bytes)) (v_out : option settings -> connect_opts -> resolution -> packet -> outcome unit) (v_in : option settings -> packet -> outcome unit) (cfg : config) (h : list event) (s : state enc dec ores ires) (acc : bytes), conn_stream (run_wlog enc enc_reset enc_call enc_done dec dec_init dec_feed ores ores_reset ores_resolve ires ires_reset ires_resolve v_out v_in cfg s h) acc = conn_bytes h (snd (run enc enc_reset enc_call enc_done dec dec_init dec_feed ores ores_reset ores_resolve ires ires_reset ires_resolve v_out v_in cfg s h)) acc.
+Print Assumptions C02_wire_log_bytes.
+Check C02_run_wire_stream : forall (enc : Type) (enc_reset : version -> packet -> resolution -> outcome enc) (enc_call : enc -> N -> N -> outcome (bytes * enc)) (enc_done : enc -> bool) (dec : Type) (dec_init : dec) (dec_feed : version -> N -> dec -> bytes -> dec * list packet * outcome unit) (ores : Type) (ores_reset : ores -> N -> ores) (ores_resolve : ores -> option N -> bytes -> outcome (ores * resolution)) (ires : Type) (ires_reset : ires -> ires) (ires_resolve : ires -> option N -> bytes -> outcome (ires * bytes)) (v_out : option settings -> connect_opts -> resolution -> packet -> outcome unit) (v_in : option settings -> packet -> outcome unit) (cfg : config) (HC : comps_ok enc enc_reset enc_call dec dec_init dec_feed ores ores_reset ores_resolve ires ires_reset ires_resolve v_out v_in), ok_cfg cfg -> forall (enc_rem : enc -> bytes) (enc_full : version -> packet -> resolution -> bytes), (forall (v : version) (p : packet) (r : resolution) (e : enc), enc_reset v p r = Ok e -> enc_rem e = enc_full v p r) -> (forall (e : enc) (fill cap : N) (out : bytes) (e' : enc), enc_call e fill cap = Ok (out, e') -> enc_rem e = out ++ enc_rem e') -> (forall e : enc, enc_done e = true -> enc_rem e = []) -> forall (enc_good : enc -> Prop) (pkt_good : version -> packet -> resolution -> Prop), (forall (v : version) (p : packet) (r : resolution) (e : enc), enc_reset v p r = Ok e -> enc_good e -> pkt_good v p r) -> (forall (e : enc) (fill cap : N) (out : bytes) (e' : enc), enc_call e fill cap = Ok (out, e') -> enc_good e' -> enc_good e) -> (forall e : enc, enc_done e = true -> enc_good e) -> forall (o : ores) (i : ires) (h : list event), ores_inv HC o -> ires_inv HC i -> Forall ok_event h -> let L := run_wlog enc enc_reset enc_call enc_done dec dec_init dec_feed ores ores_reset ores_resolve ires ires_reset ires_resolve v_out v_in cfg (init enc dec dec_init ores ires o i) h in let g := wfold wg0 L in conn_bytes h (snd (run enc enc_reset enc_call enc_done dec dec_init dec_feed ores ores_reset ores_resolve ires ires_reset ires_resolve v_out v_in cfg (init enc dec dec_init ores ires o i) h)) [] = concat (map (full cfg enc_full) (w_done g)) ++ w_part g /\ match w_cur g with | Some x => exists rest : list N, full cfg enc_full x = w_part g ++ rest | None => w_part g = [] end /\ conn_seated L [] = w_done g ++ olist (w_cur g) /\ olog_of L = run_olog enc enc_reset enc_call enc_done dec dec_init dec_feed ores ores_reset ores_resolve ires ires_reset ires_resolve v_out v_in cfg (init enc dec dec_init ores ires o i) h /\ Forall (good cfg pkt_good) (w_done g) /\ (live enc dec ores ires (fst (run enc enc_reset enc_call enc_done dec dec_init dec_feed ores ores_reset ores_resolve ires ires_reset ires_resolve v_out v_in cfg (init enc dec dec_init ores ires o i) h)) -> C enc dec ores ires cfg enc_rem enc_full enc_good pkt_good (fst (run enc enc_reset enc_call enc_done dec dec_init dec_feed ores ores_reset ores_resolve ires ires_reset ires_resolve v_out v_in cfg (init enc dec dec_init ores ires o i) h)) g).
+Print Assumptions C02_run_wire_stream.
+Check C02_run_wire_connection : forall (enc : Type) (enc_reset : version -> packet -> resolution -> outcome enc) (enc_call : enc -> N -> N -> outcome (bytes * enc)) (enc_done : enc -> bool) (dec : Type) (dec_init : dec) (dec_feed : version -> N -> dec -> bytes -> dec * list packet * outcome unit) (ores : Type) (ores_reset : ores -> N -> ores) (ores_resolve : ores -> option N -> bytes -> outcome (ores * resolution)) (ires : Type) (ires_reset : ires -> ires) (ires_resolve : ires -> option N -> bytes -> outcome (ires * bytes)) (v_out : option settings -> connect_opts -> resolution -> packet -> outcome unit) (v_in : option settings -> packet -> outcome unit) (cfg : config) (HC : comps_ok enc enc_reset enc_call dec dec_init dec_feed ores ores_reset ores_resolve ires ires_reset ires_resolve v_out v_in), ok_cfg cfg -> forall (enc_rem : enc -> bytes) (enc_full : version -> packet -> resolution -> bytes), (forall (v : version) (p : packet) (r : resolution) (e : enc), enc_reset v p r = Ok e -> enc_rem e = enc_full v p r) -> (forall (e : enc) (fill cap : N) (out : bytes) (e' : enc), enc_call e fill cap = Ok (out, e') -> enc_rem e = out ++ enc_rem e') -> (forall e : enc, enc_done e = true -> enc_rem e = []) -> forall (enc_good : enc -> Prop) (pkt_good : version -> packet -> resolution -> Prop), (forall (v : version) (p : packet) (r : resolution) (e : enc), enc_reset v p r = Ok e -> enc_good e -> pkt_good v p r) -> (forall (e : enc) (fill cap : N) (out : bytes) (e' : enc), enc_call e fill cap = Ok (out, e') -> enc_good e' -> enc_good e) -> (forall e : enc, enc_done e = true -> enc_good e) -> forall (o : ores) (i : ires) (h1 : list event) (now dl : N) (h2 : list event), ores_inv HC o -> ires_inv HC i -> Forall ok_event (h1 ++ EvOpen now dl :: h2) -> Forall not_open h2 -> let s1 := fst (run enc enc_reset enc_call enc_done dec dec_init dec_feed ores ores_reset ores_resolve ires ires_reset ires_resolve v_out v_in cfg (init enc dec dec_init ores ires o i) (h1 ++ [EvOpen now dl])) in let dc := packets_of (run_olog enc enc_reset enc_call enc_done dec dec_init dec_feed ores ores_reset ores_resolve ires ires_reset ires_resolve v_out v_in cfg s1 h2) in exists part : list N, concat (map o_bytes (snd (run enc enc_reset enc_call enc_done dec dec_init dec_feed ores ores_reset ores_resolve ires ires_reset ires_resolve v_out v_in cfg s1 h2))) = concat (map (full cfg enc_full) (fst dc)) ++ part /\ match snd dc with | Some x => exists rest : list N, full cfg enc_full x = part ++ rest | None => part = [] end /\ encodes (run_olog enc enc_reset enc_call enc_done dec dec_init dec_feed ores ores_reset ores_resolve ires ires_reset ires_resolve v_out v_in cfg s1 h2) = fst dc ++ olist (snd dc) /\ Forall (good cfg pkt_good) (fst dc).
+Print Assumptions C02_run_wire_connection.
+Check C02_run_silent_before_open : forall (enc : Type) (enc_reset : version -> packet -> resolution -> outcome enc) (enc_call : enc -> N -> N -> outcome (bytes * enc)) (enc_done : enc -> bool) (dec : Type) (dec_init : dec) (dec_feed : version -> N -> dec -> bytes -> dec * list packet * outcome unit) (ores : Type) (ores_reset : ores -> N -> ores) (ores_resolve : ores -> option N -> bytes -> outcome (ores * resolution)) (ires : Type) (ires_reset : ires -> ires) (ires_resolve : ires -> option N -> bytes -> outcome (ires * bytes)) (v_out : option settings -> connect_opts -> resolution -> packet -> outcome unit) (v_in : option settings -> packet -> outcome unit) (cfg : config) (HC : comps_ok enc enc_reset enc_call dec dec_init dec_feed ores ores_reset ores_resolve ires ires_reset ires_resolve v_out v_in), ok_cfg cfg -> forall (o : ores) (i : ires) (h : list event), ores_inv HC o -> ires_inv HC i -> Forall ok_event h -> Forall not_open h -> concat (map o_bytes (snd (run enc enc_reset enc_call enc_done dec dec_init dec_feed ores ores_reset ores_resolve ires ires_reset ires_resolve v_out v_in cfg (init enc dec dec_init ores ires o i) h))) = [].
+Print Assumptions C02_run_silent_before_open.
+Check C02_instance_wire_stream : forall cfg : config, ok_cfg cfg -> forall (k : Outbound.resolver_kind) (h : list event), Forall ok_event h -> let L := i_wlog cfg (i_init cfg k) h in let g := wfold wg0 L in conn_bytes h (snd (i_run cfg (i_init cfg k) h)) [] = concat (map (i_full cfg) (w_done g)) ++ w_part g /\ match w_cur g with | Some x => exists rest : list N, i_full cfg x = w_part g ++ rest | None => w_part g = [] end /\ conn_seated L [] = w_done g ++ olist (w_cur g) /\ olog_of L = i_olog cfg (i_init cfg k) h /\ Forall (fun x : packet * resolution => impl_encode_all (cf_version cfg) (fst x) (snd x) = Ok (i_full cfg x)) (w_done g).
+Print Assumptions C02_instance_wire_stream.
+Check C02_instance_wire_connection : forall cfg : config, ok_cfg cfg -> forall (k : Outbound.resolver_kind) (h1 : list event) (now dl : N) (h2 : list event), Forall ok_event (h1 ++ EvOpen now dl :: h2) -> Forall not_open h2 -> let s1 := fst (i_run cfg (i_init cfg k) (h1 ++ [EvOpen now dl])) in let L := i_olog cfg s1 h2 in exists part : list N, concat (map o_bytes (snd (i_run cfg s1 h2))) = concat (map (i_full cfg) (fst (packets_of L))) ++ part /\ match snd (packets_of L) with | Some x => exists rest : list N, i_full cfg x = part ++ rest | None => part = [] end /\ encodes L = fst (packets_of L) ++ olist (snd (packets_of L)) /\ Forall (fun x : packet * resolution => impl_encode_all (cf_version cfg) (fst x) (snd x) = Ok (i_full cfg x)) (fst (packets_of L)).
+Print Assumptions C02_instance_wire_connection.
+Check C02_instance_wire_decodes : forall cfg : config, ok_cfg cfg -> forall (k : Outbound.resolver_kind) (h1 : list event) (now dl : N) (h2 : list event), Forall ok_event (h1 ++ EvOpen now dl :: h2) -> Forall not_open h2 -> let s1 := fst (i_run cfg (i_init cfg k) (h1 ++ [EvOpen now dl])) in let L := i_olog cfg s1 h2 in Forall (pr_valid (cf_version cfg)) (encodes L) -> exists frames part : list N, concat (map o_bytes (snd (i_run cfg s1 h2))) = frames ++ part /\ spec_decode_all (length (fst (packets_of L))) (cf_version cfg) frames = Some (map (pr_canon (cf_version cfg)) (fst (packets_of L))) /\ match snd (packets_of L) with | Some x => exists (bs : bytes) (rest : list N), impl_encode_all (cf_version cfg) (fst x) (snd x) = Ok bs /\ bs = part ++ rest /\ spec_decode (cf_version cfg) bs = Some (pr_canon (cf_version cfg) x, []) | None => part = [] end.
+Print Assumptions C02_instance_wire_decodes.
+Check C02_instance_silent_before_open : forall cfg : config, ok_cfg cfg -> forall (k : Outbound.resolver_kind) (h : list event), Forall ok_event h -> Forall not_open h -> concat (map o_bytes (snd (i_run cfg (i_init cfg k) h))) = [].
+Print Assumptions C02_instance_silent_before_open.
+Check C02_wire_example_connection1 : map o_bytes (snd (i_run ww_cfg ww_s1 ww_conn1)) = [ww_connect1; []; []; []; [50; 16; 0; 1; 116]; []; [0; 1; 0; 1; 2; 3; 4; 5]; []; [6; 7; 8; 9; 10]; []; []; [50; 12; 0; 1; 116]; []; []] /\ map (i_full ww_cfg) (fst (packets_of (i_olog ww_cfg ww_s1 ww_conn1))) = [ww_connect1; ww_pub1] /\ option_map (i_full ww_cfg) (snd (packets_of (i_olog ww_cfg ww_s1 ww_conn1))) = Some ww_pub2_id2 /\ concat (map o_bytes (snd (i_run ww_cfg ww_s1 ww_conn1))) = (ww_connect1 ++ ww_pub1) ++ [50; 12; 0; 1; 116] /\ forallb (fun x : packet * resolution => valid V5 (snd x) (fst x)) (encodes (i_olog ww_cfg ww_s1 ww_conn1)) = true /\ spec_decode_all 2 V5 (ww_connect1 ++ ww_pub1) = Some (map (pr_canon V5) (fst (packets_of (i_olog ww_cfg ww_s1 ww_conn1)))).
+Print Assumptions C02_wire_example_connection1.
+Check C02_wire_example_connection2 : map o_bytes (snd (i_run ww_cfg ww_s2 ww_conn2)) = [ww_connect2; []; []; ww_pub1_dup ++ ww_pub2_id3] /\ map (i_full ww_cfg) (fst (packets_of (i_olog ww_cfg ww_s2 ww_conn2))) = [ww_connect2; ww_pub1_dup; ww_pub2_id3] /\ snd (packets_of (i_olog ww_cfg ww_s2 ww_conn2)) = None /\ forallb (fun x : packet * resolution => valid V5 (snd x) (fst x)) (encodes (i_olog ww_cfg ww_s2 ww_conn2)) = true /\ spec_decode_all 3 V5 (concat (map o_bytes (snd (i_run ww_cfg ww_s2 ww_conn2)))) = Some (map (pr_canon V5) (fst (packets_of (i_olog ww_cfg ww_s2 ww_conn2)))).
+Print Assumptions C02_wire_example_connection2.
+Check C02_wire_example_run_form : let g := wfold wg0 (i_wlog ww_cfg (x_init ww_cfg) ww_hist) in conn_bytes ww_hist (snd (i_run ww_cfg (x_init ww_cfg) ww_hist)) [] = ww_connect2 ++ ww_pub1_dup ++ ww_pub2_id3 /\ map (i_full ww_cfg) (w_done g) = [ww_connect2; ww_pub1_dup; ww_pub2_id3] /\ w_cur g = None /\ w_part g = [].
+Print Assumptions C02_wire_example_run_form.
